@@ -290,7 +290,7 @@ def main(tier, seed):
     import xml.etree.ElementTree as ET
     rng = random.Random(seed)
     n = 40 if tier == 'quick' else 600
-    items, worlds = [], []
+    items, worlds, vitems = [], [], []
     for i in range(n):
         w = gen_world(rng)
         comments = []
@@ -355,6 +355,14 @@ def main(tier, seed):
             elif info['own'] is None and info['invoker_block'] is None:
                 if any(v.get(a) for a in ('version', 'deprecated', 'stability')) or v.findall(S.CORE + 'attribute'):
                     ck.failing_input('a virtual method without any block carries version/deprecation/stability/attributes', case, detail=v.attrib)
+        # the same virtual methods for Model.C03.vfunc_meta (not when both an own block and an invoker block exist: the
+        # implementation merges the two, which the property does not speak about)
+        for slot, info in w['vfuncs'].items():
+            v = vms.get(slot)
+            if v is None or (info['own'] is not None and info['invoker_block'] is not None):
+                continue
+            vitems.append('(%d, %s, %s, %s, %s)' % (len(vitems), clist(['(%s, %s)' % (cstr(k), coq_block(b)) for k, b, _ in w['blocks']]),
+                                                  cstr(slot), copt(info['method'] if v.get('invoker') else None, cstr), obs_meta(v, S, 'SFunction')))
         fns = clist(['{| f_name := %s; f_symbol := %s; f_shadows := None; f_shadowed_by := None |}' % (cstr(f), cstr('foo_' + f)) for f in w['fnames']]
                     + ['{| f_name := %s; f_symbol := %s; f_shadows := None; f_shadowed_by := None |}' % (cstr(f), cstr('foo_rec0_' + f)) for f in w['mnames']])
         shown = []
@@ -381,6 +389,20 @@ def main(tier, seed):
                      % (len(worlds), clist(['(%s, %s)' % (cstr(k), coq_block(b)) for k, b, _ in w['blocks']]), clist(ecases), fns,
                         clist(['(%s, %s)' % (cstr(a), cstr(t)) for a, t in w['renames'] + w['mrenames']]), clist(shown)))
         worlds.append(w)
+    if ck.models_ok and vitems:
+        text = '\n'.join(['From Coq Require Import List NArith Bool.', 'From GIV.Lib Require Import Regex Str.',
+                          'From GIV.Model Require Import C02 C03 C03Spec.', 'Import ListNotations.', 'Local Open Scope N_scope.',
+                          'Definition vcases : list (N * list (str * block) * str * option str * meta) := [%s].' % ';\n'.join(vitems),
+                          "Definition vbad := Eval vm_compute in map (fun c => fst (fst (fst (fst c)))) (filter (fun c => let '(_, bl, v, inv, o) := c in",
+                          '  negb (meta_eqb (vfunc_meta bl %s v inv) o)) vcases).' % cstr('FooObjClass'), 'Print vbad.'])
+        rc, out = coq_eval('C03_vcases', text)
+        if rc != 0:
+            ck.tie_broken('correspondence', 'virtual-method case file does not evaluate:\n' + out[-2000:])
+        else:
+            vb = parse_nlist(parse_defs(out)['vbad'])
+            if vb:
+                ck.tie_broken('correspondence', 'identifier-level data of virtual methods differs from Model.C03.vfunc_meta on %d virtual methods'
+                              % len(vb), dict(case=vitems[vb[0]][:2500]))
     if ck.models_ok and items:
         bad = []
         per = 40
